@@ -789,6 +789,11 @@ func evalFunc(env any, name string, args []object.Object) object.Object {
 	s := env.(*eval.State)
 	res, err := eval.EvalString(s, str, name == "unjson" /* empty env */)
 	if err != nil {
+		if res != nil && res.Type() == object.ERROR {
+			// An evaluation error is returned as is: wrapping its whole text again at every level of a recursion
+			// through eval() made the message (and the time to unwind) grow quadratically with the depth.
+			return res
+		}
 		return s.Error(err)
 	}
 	return res
